@@ -266,6 +266,7 @@ func c18Cells(yield func(c18Case)) {
 	f32s := []float32{float32(math.NaN()), float32(math.Inf(1)), math.MaxFloat32, 2147483648, -2147483904, 9.223372e18, 1e19, 0.5, -1.5, 16777216}
 	strs := []string{"2147483647", "2147483648", "-2147483648", "-2147483649", "3000000000", "9223372036854775807", "9223372036854775808", "-9223372036854775808", "-9223372036854775809",
 		"10000000000000000000", "1e19", "1e300", "1e-400", "1e400", "-1e400", "3.4028235e38", "3.4028236e38", "3.5e38", "1e39", "0.1", "1.5", "-1.5", "1e3", "1E3", "+5", "-0", "0x10", "0x1p4", "1_000", " 42", "42 ", "4 2",
+		"010", "0100", "-017", "+010", "007", "00", "08", "-09", "0000000777", "010.5", "-00.5", "0e1", "01e2", "0b101", "0o17", "0B1", "0X1F", "-0x10", "1__0", "_1", "1_",
 		"NaN", "nan", "Inf", "-Inf", "+inf", "infinity", "1e", "e1", ".5", "5.", "--1", "１２", "1.7976931348623157e308", "1.7976931348623159e308", "9007199254740993", "16777217", "0.30000000000000004", "123456789012345678901234567890"}
 	jsons := []string{"3000000000", "3e9", "1e19", "1e300", "2147483648", "-2147483649", "9223372036854775807", "9223372036854775808", "1.5", "-0.5", "1e39", "3.5e38", "16777217", "9007199254740993", "0", "-0", "1e-400"}
 	for _, kind := range c18Kinds {
@@ -302,6 +303,12 @@ func c18Cells(yield func(c18Case)) {
 			yield(c18Case{Kind: kind, In: model.F32(float32(f))})
 			yield(c18Case{Kind: kind, In: model.Str(s + ".5")})
 			yield(c18Case{Kind: kind, In: model.Str(s + "e0")})
+			if b.Sign() >= 0 {
+				yield(c18Case{Kind: kind, In: model.Str("0" + s)}) // zero-padded decimals are decimals
+				yield(c18Case{Kind: kind, In: model.Str("+" + s)})
+			} else {
+				yield(c18Case{Kind: kind, In: model.Str("-00" + s[1:])})
+			}
 			yield(c18Case{Kind: kind, In: model.Int(0), JSON: s})
 			yield(c18Case{Kind: kind, In: model.Int(0), JSON: s + ".5"})
 		}
@@ -329,7 +336,14 @@ func TestC18(t *testing.T) {
 	hh.Enumerate(h, "boundary-product", c18Cells, propC18)
 	hh.Sub(h, "random", h.N(20000, 200000), func(rt *rapid.T) c18Case {
 		kind := rapid.SampledFrom(c18Kinds).Draw(rt, "kind")
-		switch rapid.IntRange(0, 5).Draw(rt, "src") {
+		switch rapid.IntRange(0, 6).Draw(rt, "src") {
+		case 6: // decimal digit strings as people type them: sign, zero padding, any digits
+			s := rapid.SampledFrom([]string{"", "", "-", "+"}).Draw(rt, "sign") + strings.Repeat("0", rapid.IntRange(0, 3).Draw(rt, "pad")) +
+				rapid.StringOfN(rapid.SampledFrom([]rune("0123456789")), 1, 20, -1).Draw(rt, "digits")
+			if rapid.IntRange(0, 3).Draw(rt, "frac") == 0 {
+				s += "." + rapid.StringOfN(rapid.SampledFrom([]rune("0123456789")), 0, 4, -1).Draw(rt, "fd")
+			}
+			return c18Case{Kind: kind, In: model.Str(s)}
 		case 0:
 			return c18Case{Kind: kind, In: model.Int64(rapid.Int64().Draw(rt, "i64"))}
 		case 1:
